@@ -47,24 +47,38 @@ def showKind : ErrKind → String
   | .expectedExpr => "ExpectedExpr" | .expectedEof => "ExpectedEndOfExpression"
   | .invalidPlatform => "InvalidPlatformArgument" | .outOfFuel => "OutOfFuel"
 
-def showErr (e : PErr) : String :=
-  match e.kind with
-  | .invalidRegex => "InvalidRegex:?:?"
-  | k => s!"{showKind k}:{e.off}:{e.len}"
+def showErr (e : PErr) : String := s!"{showKind e.kind}:{e.off}:{e.len}"
 
 def showErrs (es : List PErr) : String := ",".intercalate (es.map showErr)
 
-/-- table entries: `r1<hex>` valid regex, `r0<hex>` invalid regex, `g1…`/`g0…` globs -/
-def parseTable (s : String) : Option (List (List Char × Bool) × List (List Char × Bool)) :=
-  (splitList s ",").foldlM (fun (acc : List (List Char × Bool) × List (List Char × Bool)) e =>
-    match e.toList with
-    | k :: v :: h =>
-      match unhexC (String.ofList h) with
-      | some t =>
-        let b := v == '1'
-        if k == 'r' then some ((t, b) :: acc.1, acc.2) else if k == 'g' then some (acc.1, (t, b) :: acc.2) else none
-      | none => none
-    | _ => none) ([], [])
+structure Tables where
+  rv : List (List Char × Bool) := []
+  gv : List (List Char × Bool) := []
+  re : List (List Char × Nat × Nat) := []
+
+/-- table entries: `r1<hex>` valid regex, `r0<hex>` regex that `regex` refuses and `regex-syntax` accepts,
+    `r0<hex>~a~b` refused regex of which `regex-syntax` blames bytes a..b, `g1…`/`g0…` globs -/
+def parseTable (s : String) : Option Tables :=
+  (splitList s ",").foldlM (fun (acc : Tables) e =>
+    match e.splitOn "~" with
+    | [] => none
+    | hd :: sp =>
+      match hd.toList with
+      | k :: v :: h =>
+        match unhexC (String.ofList h) with
+        | some t =>
+          let b := v == '1'
+          if k == 'r' then
+            match sp with
+            | [] => some { acc with rv := (t, b) :: acc.rv }
+            | [x, y] => do
+              let x ← x.toNat?
+              let y ← y.toNat?
+              some { acc with rv := (t, b) :: acc.rv, re := (t, x, y) :: acc.re }
+            | _ => none
+          else if k == 'g' then some { acc with gv := (t, b) :: acc.gv } else none
+        | none => none
+      | _ => none) {}
 
 def showNeeds (ns : List (Bool × List Char)) : String :=
   "need " ++ ",".intercalate (ns.map fun (r, t) => (if r then "r" else "g") ++ hexC t)
@@ -73,8 +87,8 @@ def showNeeds (ns : List (Bool × List Char)) : String :=
 def handleParse : List String → Option String
   | [inp, tbl] => do
     let input ← unhexC inp
-    let (rv, gv) ← parseTable tbl
-    let (e, st) := parseTop (mkCtx input rv gv) input
+    let tb ← parseTable tbl
+    let (e, st) := parseTop (mkCtx input tb.rv tb.gv tb.re) input
     if !st.needs.isEmpty then pure (showNeeds st.needs) else
     match e, st.errs with
     | some e, [] => pure s!"ok {showExpr true e}"
@@ -86,13 +100,13 @@ def handleParse : List String → Option String
 def handleRt : List String → Option String
   | [inp, tbl] => do
     let input ← unhexC inp
-    let (rv, gv) ← parseTable tbl
-    let (e, st) := parseTop (mkCtx input rv gv) input
+    let tb ← parseTable tbl
+    let (e, st) := parseTop (mkCtx input tb.rv tb.gv tb.re) input
     if !st.needs.isEmpty then pure (showNeeds st.needs) else
     match e, st.errs with
     | some e, [] =>
       let text := printExpr e
-      let (e2, st2) := parseTop (mkCtx text rv gv) text
+      let (e2, st2) := parseTop (mkCtx text tb.rv tb.gv tb.re) text
       if !st2.needs.isEmpty then pure (showNeeds st2.needs) else
       match e2, st2.errs with
       | some e2, [] => pure s!"rt {hexC text} {if dropSpans e2 = dropSpans e then "same" else "diff"}"
